@@ -368,11 +368,12 @@ theorem isDirective_head (g : Grammar) (a : Char) (x y : Str) : isDirective g (a
   simp [isDirective]
 
 theorem line_roundtrip (g : Grammar) (hg : grammarWF g = true) (r : Rule) (hr : r ∈ g.rules) (c : Cpt)
-    (hn : normalCpt g r c = true) (used : List Str) (s : Str) (hp : printCpt g c = some s) :
-    ∃ kp os, parse g used [] s
-        = .ok ({ c with args := normArgs c.args, kwpos := kp, opts := os, string := s }, none)
+    (hn : normalCpt g r c = true) (s : Str) (hp : printCpt g c = some s) :
+    ∃ kp os, (∀ used, parse g used [] s
+        = .ok ({ c with args := normArgs c.args, kwpos := kp, opts := os, string := s }, none))
       ∧ (c.kw ≠ [] → kp = c.kwpos)
-      ∧ (∃ o os', optsParse c.opts = .ok o ∧ optsFormat o = some os' ∧ os = strip os') := by
+      ∧ (∃ o os', optsParse c.opts = .ok o ∧ optsFormat o = some os' ∧ os = strip os')
+      ∧ strip s = s ∧ s.head? = c.name.head? ∧ c.name.head? ≠ some '.' ∧ c.name ≠ [] := by
   -- the grammar
   simp only [grammarWF, Bool.and_eq_true, Bool.not_eq_true'] at hg
   obtain ⟨⟨⟨⟨⟨⟨⟨⟨⟨⟨⟨gok, gwf⟩, gdf⟩, _⟩, gb⟩, _⟩, _⟩, _⟩, g0⟩, _⟩, gsp⟩, _⟩ := hg
@@ -548,6 +549,9 @@ theorem line_roundtrip (g : Grammar) (hg : grammarWF g = true) (r : Rule) (hr : 
     | nil => rw [h] at hhead; simp at hhead
     | cons b u => rw [h] at hhead; simp at hhead; subst hhead; exact ⟨u, rfl⟩
   have haws : isWs a = false := (hnamespec.2 a (by rw [hcn]; simp)).2.2.2.2.2
+  have hdot1 : c.name.head? ≠ some '.' := by
+    rw [hcn]; intro h; simp at h; subst h
+    exact hdotfree '.' (by rw [hcn]; simp) rfl
   have hdirnet : ∀ rest, isDirective g (a :: rest) = false := by
     intro rest; rw [isDirective_head g a rest t, ← hcn]; exact mdir
   -- unfold the printer
@@ -567,13 +571,15 @@ theorem line_roundtrip (g : Grammar) (hg : grammarWF g = true) (r : Rule) (hr : 
         intro os; rw [← ncls, ← nty]
       by_cases hemp : (strip os').isEmpty = true
       · simp only [hemp, ↓reduceIte] at hp
-        refine ⟨kp, [], ?_, hkpc, o, os', rfl, hof, (by simpa using hemp : strip os' = []).symm⟩
-        rw [← hrec]
         have hstrip : strip s = s := by
           rw [← hp, hnet]
           apply strip_id
           · intro ch h; simp at h; subst h; exact haws
           · rw [← hnet]; exact hlast
+        refine ⟨kp, [], ?_, hkpc, ⟨o, os', rfl, hof, (by simpa using hemp : strip os' = []).symm⟩, hstrip,
+          by rw [← hp, hnet, hcn]; rfl, hdot1, hnamespec.1⟩
+        intro used
+        rw [← hrec]
         apply parse_of_tokens g gok used s (joinWith [' '] (netTokens g c)) sel none c.name _ r.type c.cid r0 rs hstrip
           (by rw [← hp, hnet]; exact hdirnet t')
           (by rw [← hp]; exact splitFirst_none ';' _ hnosemi)
@@ -581,8 +587,6 @@ theorem line_roundtrip (g : Grammar) (hg : grammarWF g = true) (r : Rule) (hr : 
       · have hemp' : (strip os').isEmpty = false := by simpa using hemp
         simp only [hemp', Bool.false_eq_true, ↓reduceIte] at hp
         have hosne : strip os' ≠ [] := by intro h; rw [h] at hemp'; simp at hemp'
-        refine ⟨kp, strip os', ?_, hkpc, o, os', rfl, hof, rfl⟩
-        rw [← hrec]
         have hs : s = joinWith [' '] (netTokens g c) ++ ';' :: (' ' :: strip os') := by rw [← hp]; simp
         have hstrip : strip s = s := by
           rw [hs, hnet]
@@ -597,6 +601,9 @@ theorem line_roundtrip (g : Grammar) (hg : grammarWF g = true) (r : Rule) (hr : 
               rw [hl] at h
               simp at h; subst h
               exact (strip_ends os').2 _ hl
+        refine ⟨kp, strip os', ?_, hkpc, ⟨o, os', rfl, hof, rfl⟩, hstrip, by rw [hs, hnet, hcn]; rfl, hdot1, hnamespec.1⟩
+        intro used
+        rw [← hrec]
         apply parse_of_tokens g gok used s (joinWith [' '] (netTokens g c)) sel (some (' ' :: strip os')) c.name _ r.type c.cid r0 rs hstrip
           (by rw [hs, hnet]; exact hdirnet _)
           (by rw [hs]; exact splitFirst_some ';' _ _ hnosemi)
@@ -625,6 +632,18 @@ theorem opts_format_idempotent (o : Opts) (hn : optsNormal o = true) (s : Str) (
   rw [hs] at h1; cases h1
   exact ⟨o, h2, hs⟩
 
+/-- **opts_constants.**  The constants that the model of `Opts.add` / `Opts.format` / `value_parser` is
+    written with are the ones in the checked-out `opts.py` / `valueparser.py` (extracted by the
+    translator): the spellings read as Booleans, the list-valued key, the separator written by `format`,
+    the characters of the local `split`, and the `Meg` / `K` suffix aliases. -/
+theorem opts_constants :
+    Gen.Grammar.optsTrue = [['t','r','u','e'], ['T','r','u','e']]
+    ∧ Gen.Grammar.optsFalse = [['f','a','l','s','e'], ['F','a','l','s','e']]
+    ∧ Gen.Grammar.optsListKey = ['d','e','f']
+    ∧ Gen.Grammar.optsJoin = [',', ' ']
+    ∧ Gen.Grammar.optsSplitChars = [',', '{', '}']
+    ∧ Gen.Grammar.suffixAliases = [(['M','e','g'], ['M']), (['K'], ['k'])] := by decide
+
 theorem optsEq_refl (o : Opts) (hn : optsNormal o = true) : optsEq o o = true := by
   induction o with
   | nil => rfl
@@ -652,15 +671,16 @@ theorem netTokens_reparsed (g : Grammar) (c : Cpt) (kp : Option Nat) (os s : Str
     table), and printing that component gives the same line again (print is idempotent). -/
 theorem line_roundtrip_full (g : Grammar) (hg : grammarWF g = true) (r : Rule) (hr : r ∈ g.rules) (c : Cpt)
     (hn : normalCpt g r c = true) (o : Opts) (ho : optsParse c.opts = .ok o) (hon : optsNormal o = true)
-    (used : List Str) (s : Str) (hp : printCpt g c = some s) :
-    ∃ c', parse g used [] s = .ok (c', none) ∧ sameCpt c c' = true ∧ printCpt g c' = some s
-      ∧ c'.name = c.name := by
-  obtain ⟨kp, os, hparse, hkp, o', os', ho', hof, hos⟩ := line_roundtrip g hg r hr c hn used s hp
+    (s : Str) (hp : printCpt g c = some s) :
+    ∃ c', (∀ used, parse g used [] s = .ok (c', none)) ∧ sameCpt c c' = true ∧ printCpt g c' = some s
+      ∧ c'.name = c.name ∧ (∃ o', optsParse c'.opts = .ok o')
+      ∧ strip s = s ∧ s.head? = c.name.head? ∧ c.name.head? ≠ some '.' ∧ c.name ≠ [] := by
+  obtain ⟨kp, os, hparse, hkp, ⟨o', os', ho', hof, hos⟩, hst1, hst2, hst3, hst4⟩ := line_roundtrip g hg r hr c hn s hp
   rw [ho] at ho'; cases ho'
   obtain ⟨s', hf, hpo, hst⟩ := optsParse_format o hon
   rw [hof] at hf; cases hf
   rw [hst] at hos; subst hos
-  refine ⟨_, hparse, ?_, ?_, rfl⟩
+  refine ⟨_, hparse, ?_, ?_, rfl, ⟨o, hpo⟩, hst1, hst2, hst3, hst4⟩
   · have hxx : (c.ctype == ['X','X']) = false := by
       simp only [grammarWF, Bool.and_eq_true] at hg
       have rwf := List.all_eq_true.mp hg.1.1.1.1.1.1.1.1.1.1.2 r hr
@@ -698,20 +718,22 @@ theorem table_wf2 : grammarWF theGrammar = true := by decide +kernel
 /-- **line_roundtrip_table.**  `line_roundtrip` for the checked-out grammar: for EVERY rule of the
     table and every component in normal form. -/
 theorem line_roundtrip_table (r : Rule) (hr : r ∈ theGrammar.rules) (c : Cpt)
-    (hn : normalCpt theGrammar r c = true) (used : List Str) (s : Str) (hp : printCpt theGrammar c = some s) :
-    ∃ kp os, parse theGrammar used [] s
-        = .ok ({ c with args := normArgs c.args, kwpos := kp, opts := os, string := s }, none)
+    (hn : normalCpt theGrammar r c = true) (s : Str) (hp : printCpt theGrammar c = some s) :
+    ∃ kp os, (∀ used, parse theGrammar used [] s
+        = .ok ({ c with args := normArgs c.args, kwpos := kp, opts := os, string := s }, none))
       ∧ (c.kw ≠ [] → kp = c.kwpos)
-      ∧ (∃ o os', optsParse c.opts = .ok o ∧ optsFormat o = some os' ∧ os = strip os') :=
-  line_roundtrip theGrammar table_wf2 r hr c hn used s hp
+      ∧ (∃ o os', optsParse c.opts = .ok o ∧ optsFormat o = some os' ∧ os = strip os')
+      ∧ strip s = s ∧ s.head? = c.name.head? ∧ c.name.head? ≠ some '.' ∧ c.name ≠ [] :=
+  line_roundtrip theGrammar table_wf2 r hr c hn s hp
 
 /-- **line_roundtrip_full_table.**  The complete line-level statement for the checked-out grammar. -/
 theorem line_roundtrip_full_table (r : Rule) (hr : r ∈ theGrammar.rules) (c : Cpt)
     (hn : normalCpt theGrammar r c = true) (o : Opts) (ho : optsParse c.opts = .ok o) (hon : optsNormal o = true)
-    (used : List Str) (s : Str) (hp : printCpt theGrammar c = some s) :
-    ∃ c', parse theGrammar used [] s = .ok (c', none) ∧ sameCpt c c' = true ∧ printCpt theGrammar c' = some s
-      ∧ c'.name = c.name :=
-  line_roundtrip_full theGrammar table_wf2 r hr c hn o ho hon used s hp
+    (s : Str) (hp : printCpt theGrammar c = some s) :
+    ∃ c', (∀ used, parse theGrammar used [] s = .ok (c', none)) ∧ sameCpt c c' = true
+      ∧ printCpt theGrammar c' = some s ∧ c'.name = c.name := by
+  obtain ⟨c', h1, h2, h3, h4, _⟩ := line_roundtrip_full theGrammar table_wf2 r hr c hn o ho hon s hp
+  exact ⟨c', h1, h2, h3, h4⟩
 
 /-! non-vacuity: concrete components of several rule shapes satisfy every hypothesis -/
 
